@@ -780,6 +780,8 @@ impl LdapConnAsync {
     }
 
     async fn turn(mut self, mode: LoopMode) -> Result<Self> {
+        // in single-op mode: has the operation's request been taken off the queue?
+        let mut single_op_started = false;
         loop {
             #[cfg(ldap3_verif)]
             crate::verif::publish(&self.resultmap, &self.searchmap);
@@ -794,6 +796,7 @@ impl LdapConnAsync {
                 },
                 op_tuple = self.rx.recv() => {
                     if let Some((id, op, tag, controls, tx)) = op_tuple {
+                        single_op_started = true;
                         if let LdapOp::Search(ref search_tx) = op {
                             self.searchmap.insert(id, search_tx.clone());
                         }
@@ -898,8 +901,12 @@ impl LdapConnAsync {
                     }
                 },
             };
+            // the single operation is over when its response has been routed; frames for
+            // other IDs (an unsolicited notification, say) don't end the turn
             if let LoopMode::SingleOp = mode {
-                break;
+                if single_op_started && self.resultmap.is_empty() {
+                    break;
+                }
             }
         }
         Ok(self)
